@@ -5,6 +5,7 @@ use crate::log::Violation;
 use std::collections::BTreeMap;
 
 pub mod common;
+pub mod c01;
 pub mod c02;
 pub mod c03;
 pub mod c04;
@@ -12,11 +13,16 @@ pub mod c05;
 pub mod c06;
 pub mod c07;
 pub mod c08;
+pub mod c09;
+pub mod c10;
+pub mod c11;
+pub mod c12;
 pub mod c14;
 pub mod c15;
 pub mod c16;
 pub mod c17;
 pub mod c18;
+pub mod c19;
 pub mod selfcheck;
 
 #[derive(Clone, Copy, Debug, PartialEq, Eq)]
@@ -97,7 +103,7 @@ pub trait Property: Sync + Send {
 }
 
 pub fn all() -> Vec<Box<dyn Property>> {
-    vec![Box::new(selfcheck::SelfCheck), Box::new(c18::C18), Box::new(c14::C14), Box::new(c15::C15), Box::new(c16::C16), Box::new(c08::C08), Box::new(c07::C07), Box::new(c06::C06), Box::new(c17::C17), Box::new(c05::C05), Box::new(c02::C02), Box::new(c04::C04), Box::new(c03::C03)]
+    vec![Box::new(selfcheck::SelfCheck), Box::new(c18::C18), Box::new(c14::C14), Box::new(c15::C15), Box::new(c16::C16), Box::new(c08::C08), Box::new(c07::C07), Box::new(c06::C06), Box::new(c17::C17), Box::new(c05::C05), Box::new(c02::C02), Box::new(c04::C04), Box::new(c03::C03), Box::new(c19::C19), Box::new(c09::C09), Box::new(c10::C10), Box::new(c11::C11), Box::new(c12::C12), Box::new(c01::C01)]
 }
 
 pub fn by_id(id: &str) -> Option<Box<dyn Property>> {
